@@ -57,6 +57,12 @@ def spec_of(key, val):
         return sp("range", lo, val.max - 1, val.probability < 1.0 and val.none_value is None)
     if isinstance(val, DateRangeRandomizer):
         return sp("range", (val.min - D0).days, (val.min - D0).days + val.delta_days - 1, val.probability < 1.0)
+    # a randomizer may produce a string holding a macro: it is expanded like a literal one (user guide:
+    # TextRandomizer("{idx}: Provide ..."))
+    if isinstance(val, ValueRandomizer) and val.value in ("{idx}", "{hier_idx}"):
+        return sp("idx" if val.value == "{idx}" else "hier", 0, 0, val.probability < 1.0)
+    if isinstance(val, SampleRandomizer) and list(val.sample_list) in (["{idx}"], ["{hier_idx}"]):
+        return sp("idx" if list(val.sample_list) == ["{idx}"] else "hier", 0, 0, val.probability < 1.0)
     if isinstance(val, SparseBoolRandomizer):
         return sp("value", 1, 0, val.probability < 1.0)
     if isinstance(val, ValueRandomizer):
@@ -209,6 +215,11 @@ def library(rng):
                       "folder": {"item": {"ty": 2, "i": "{idx}"},                             # 1..3 (type default)
                                  "leaf": {":count": 1, "ty": 3, "h": "{hier_idx}"}},          # 1 (relation wins)
                       "item": {"leaf": {"ty": 3, "i": "{idx}"}}}}))                           # 2 (global default)
+    defs.append(("macros produced by randomizers", {
+        "relations": {"__root__": {"folder": {":count": 2, "ty": 1, "i": ValueRandomizer("{idx}", probability=1.0), "h": "{hier_idx}"}},
+                      "folder": {"item": {":count": RangeRandomizer(1, 3), "ty": 2, "i": SampleRandomizer(["{idx}"]),
+                                          "h": SampleRandomizer(["{hier_idx}"])},
+                                 "leaf": {":count": 2, "ty": 3, "i": "{idx}", "h": ValueRandomizer("{hier_idx}", probability=1.0)}}}}))
     defs.append(("probability 0 and 1", {
         "relations": {"__root__": {"folder": {":count": 1, "ty": 1, "flag": SparseBoolRandomizer(probability=0.0),
                                               "v": ValueRandomizer(9, probability=1.0)}},
